@@ -131,6 +131,15 @@ def body_producers(case, ctx):
             parts = [a] + [rl.dense(case["dt"], r) for r in op[1]]
             xs = [x] + [rl.encode(p) for p in parts[1:]]
             parts = [a] + [rl.decode(t) for t in xs[1:]]
+            for pos in (op[2] if len(op) > 2 else []):
+                # an operand without elements (an empty slice of the parent) at any position
+                k = pos % (len(xs) + 1)
+                e = lib(lambda: x[:0])
+                if not e.ok:
+                    raise Violation("concatenate:empty-slice-refused", got=e.brief())
+                xs.insert(k, e.value)
+                parts.insert(k, a[:0])
+                ctx.label("empty-operand:" + ("first" if k == 0 else "last" if k == len(xs) - 1 else "middle"))
             rl.expect_rl(lib(lambda: np.concatenate(xs)), np.concatenate(parts), "concatenate", strict=False)
         elif op[0] == "mask":
             m = np.resize(rl.dense("bool", op[1]), n)
@@ -171,7 +180,7 @@ def producer_case(draw, tier):
         dt2 = draw(st.sampled_from([dt, dt] + rl.RL_DT))
         op = ["binary", draw(st.sampled_from(BINARY_UF)), dt2, draw(rl.runs(dt2, tier))]
     elif kind == "concat":
-        op = ["concat", draw(st.lists(rl.runs(dt, tier, max_runs=4), min_size=0, max_size=3))]
+        op = ["concat", draw(st.lists(rl.runs(dt, tier, max_runs=4), min_size=0, max_size=3)), draw(st.lists(st.integers(0, 5), max_size=2))]
     else:
         op = ["mask", draw(rl.runs("bool", tier))]
     pre = draw(st.sampled_from([["none"], ["none"], ["none"], ["floordiv"], ["gt"], ["concat-self"], ["mul0"]]))
